@@ -14,6 +14,7 @@
     @ghost loop 1 body-end           # ... right before the closing '}' of loop 1
     @ghost loop 1 before             # ... right before the loop statement
     @ghost entry                     # ... right after the opening '{' of the function
+    @ghost at <regex>                # ... right before the unique match of <regex> in the function body (not in a comment)
     @shrink <regex> => <replacement>  # rule R3, must fire exactly `count=` times (default 1)
 
 Everything inserted is wrapped in  /*KV<*/ ... /*>KV*/  on the same physical
@@ -193,6 +194,9 @@ def parse_loops_file(path):
             parts = st.split()
             if parts[1] == 'entry':
                 cur = dict(kind='ghost', where='entry', ordinal=None, text=[])
+            elif parts[1] == 'at':
+                # @ghost at <regex>  : insert right before the (unique) match of regex inside the function body
+                cur = dict(kind='ghost', where='at', ordinal=None, regex=st.split(None, 2)[2], text=[])
             else:
                 cur = dict(kind='ghost', where=parts[3], ordinal=int(parts[2]), text=[])
             cur_fn['items'].append(cur)
@@ -228,6 +232,13 @@ def inject(src, spec, with_shrink=True):
             text = ' '.join(it['text'])
             if it['kind'] == 'ghost' and it['where'] == 'entry':
                 inserts.append((bo + 1, text))
+                continue
+            if it['kind'] == 'ghost' and it['where'] == 'at':
+                ms = list(re.finditer(it['regex'], src[bo:bc]))
+                ms = [m for m in ms if b[bo + m.start()] != ' ' or src[bo + m.start()] == ' ']
+                if len(ms) != 1:
+                    raise InjectError("R1: anchor %r matches %d times in %s" % (it['regex'], len(ms), fn['name']))
+                inserts.append((bo + ms[0].start(), text + ' '))
                 continue
             o = it['ordinal']
             if o < 1 or o > len(loops):
